@@ -99,6 +99,46 @@ class _Expr(ast.NodeTransformer):
     def visit_Call(self, n: ast.Call):
         self.generic_visit(n)
         f = n.func
+        # N25 package callees (names defined once in the package): leading keyword arguments that follow the parameter order
+        # become positional - `optimize(task=t, mode=m)` and `optimize(t, mode=m)` and `optimize(t, m)` are one form
+        cname = f.id if isinstance(f, ast.Name) else f.attr if isinstance(f, ast.Attribute) else None
+        sig = SIGNATURES.get(cname) if cname and not os.environ.get("PVLINT_NO_KW2POS") else None
+        if sig is not None and n.keywords and not any(isinstance(a_, ast.Starred) for a_ in n.args) and not sig[1] and not sig[2]:
+            params = list(sig[0])
+            is_attr_call = isinstance(f, ast.Attribute)
+            if params and params[0] in ("self", "cls") and (is_attr_call or sig[4]) and not sig[3]:
+                params = params[1:]
+            elif params and params[0] in ("self", "cls") and not is_attr_call:
+                params = None          # a method called through a bare name: leave alone
+            if params is not None and not any(k.arg is None for k in n.keywords):
+                pos = list(n.args)
+                kws = list(n.keywords)
+                while len(pos) < len(params) and kws and kws[0].arg == params[len(pos)]:
+                    pos.append(kws.pop(0).value)
+                if len(pos) != len(n.args):
+                    n.args, n.keywords = pos, kws
+        # N24 a few library constructors whose first parameter is routinely passed by keyword: pd.DataFrame(data=X) -> (X)
+        d_ = None
+        if isinstance(f, ast.Attribute) and isinstance(f.value, ast.Name):
+            d_ = f"{f.value.id}.{f.attr}"
+        if d_ in ("pd.DataFrame", "pandas.DataFrame") and not n.args and n.keywords and n.keywords[0].arg == "data":
+            n.args = [n.keywords[0].value]
+            n.keywords = n.keywords[1:]
+        # N19 f(**{"a": x, "b": y}) with constant identifier keys -> f(a=x, b=y) (same evaluation order: the dict display
+        # evaluates its values left to right where the keywords would)
+        if any(k.arg is None and isinstance(k.value, ast.Dict) for k in n.keywords):
+            kws = []
+            for k in n.keywords:
+                if k.arg is None and isinstance(k.value, ast.Dict) and k.value.keys and all(
+                        isinstance(x, ast.Constant) and isinstance(x.value, str) and x.value.isidentifier() for x in k.value.keys) \
+                        and len({x.value for x in k.value.keys}) == len(k.value.keys):
+                    kws.extend(ast.keyword(arg=x.value, value=v) for x, v in zip(k.value.keys, k.value.values))
+                else:
+                    kws.append(k)
+            names = [k.arg for k in kws if k.arg is not None]
+            if len(names) == len(set(names)):
+                n.keywords = kws
+                ast.fix_missing_locations(n)
         # N5
         if isinstance(f, ast.Name) and f.id == "range" and len(n.args) == 1 and not n.keywords:
             return _loc(ast.Call(func=f, args=[ast.Constant(value=0), n.args[0]], keywords=[]), n)
@@ -468,6 +508,18 @@ def _pure_value(e: ast.AST) -> bool:
     return True
 
 
+def _pure_comprehension(e: ast.AST, params: set) -> bool:
+    """`[<pure in the loop variable> for v in <param>]` (optionally inside list()/tuple()): reads only its parameter"""
+    if isinstance(e, ast.Call) and isinstance(e.func, ast.Name) and e.func.id in ("list", "tuple") and len(e.args) == 1 and not e.keywords:
+        e = e.args[0]
+    if not (isinstance(e, (ast.ListComp, ast.GeneratorExp)) and len(e.generators) == 1 and not e.generators[0].ifs
+            and isinstance(e.generators[0].iter, ast.Name) and e.generators[0].iter.id in params
+            and isinstance(e.generators[0].target, ast.Name)):
+        return False
+    v = e.generators[0].target.id
+    return _pure_value(e.elt) and all(nm == v or nm in params for nm in _names(e.elt))
+
+
 def _roots(e: ast.AST) -> set:
     """dotted prefixes read by e: {'weights', 'self._task', 'self._task.objective_weights', ...}"""
     out = set()
@@ -585,7 +637,8 @@ def _inline_private_helpers(t: ast.Module) -> None:
             if a.vararg or a.kwarg or a.kwonlyargs or a.posonlyargs or a.defaults:
                 continue
             body = [s for s in st.body if not (isinstance(s, ast.Expr) and isinstance(s.value, ast.Constant))]
-            if len(body) == 1 and isinstance(body[0], ast.Return) and body[0].value is not None and _pure_value(body[0].value):
+            if len(body) == 1 and isinstance(body[0], ast.Return) and body[0].value is not None and (
+                    _pure_value(body[0].value) or _pure_comprehension(body[0].value, {x.arg for x in a.args})):
                 helpers[st.name] = ([x.arg for x in a.args], body[0].value)
     if not helpers:
         return
@@ -616,10 +669,21 @@ def _inline_private_helpers(t: ast.Module) -> None:
     for idx, st in enumerate(t.body):
         if not (isinstance(st, ast.FunctionDef) and st.name in helpers):
             t.body[idx] = R().visit(st)
+    # a private helper that is no longer referenced in its module, nor imported anywhere in the package, is dead code
+    for name in list(helpers):
+        refs = [n for n in ast.walk(t) if isinstance(n, ast.Name) and n.id == name]
+        in_all = any(isinstance(n, ast.Constant) and n.value == name for n in ast.walk(t))
+        if not refs and not in_all and name not in IMPORTED_NAMES:
+            t.body = [x for x in t.body if not (isinstance(x, ast.FunctionDef) and x.name == name)]
 
 
 # names defined more than once in the package (set by model.Program._load): possibly overridden methods, never spliced
 MULTI_DEF: frozenset = frozenset()
+# every identifier that appears in a `from .. import ..` statement anywhere in the package (set by model.Program._load)
+IMPORTED_NAMES: frozenset = frozenset()
+# name -> (positional-or-keyword parameters, has *args, has positional-only, staticmethod, classmethod) for every function or
+# method whose name is defined exactly once in the package (set by model.Program._load)
+SIGNATURES: dict = {}
 
 # methods the rules address by name: never dissolved into their callers
 ANCHOR_METHODS = {
@@ -753,6 +817,204 @@ def _inline_single_use_methods(t: ast.Module) -> None:
                     break
             if not done:
                 break
+
+
+def _eval_prefix_ok(stmt: ast.stmt, use: ast.Name) -> bool:
+    """Is everything that `stmt` evaluates before it reads `use` free of effects, and is `use` read unconditionally, exactly
+    where the statement's own evaluation reaches it (not inside a lambda / comprehension / conditional part)?"""
+    from .model import set_parents  # noqa: F401  (parents are not set on the tree being rewritten: walk explicitly)
+    path = []
+
+    def find(node, trail):
+        if node is use:
+            path.extend(trail + [node])
+            return True
+        for ch in ast.iter_child_nodes(node):
+            if find(ch, trail + [node]):
+                return True
+        return False
+    if not find(stmt, []):
+        return False
+    for parent_, child in zip(path, path[1:]):
+        if isinstance(parent_, (ast.Lambda, ast.ListComp, ast.SetComp, ast.DictComp, ast.GeneratorExp, ast.NamedExpr, ast.Dict,
+                                ast.FunctionDef, ast.ClassDef, ast.Await, ast.Yield, ast.YieldFrom, ast.Starred)):
+            return False
+        if isinstance(parent_, ast.IfExp) and child is not parent_.test:
+            return False
+        if isinstance(parent_, ast.BoolOp) and child is not parent_.values[0]:
+            return False
+        if isinstance(parent_, ast.Compare) and len(parent_.ops) > 1 and child is not parent_.left:
+            return False
+        if isinstance(parent_, (ast.Assign, ast.AnnAssign)):
+            if child is not parent_.value:
+                return False          # the use sits in the target: evaluated after the value
+            continue
+        if isinstance(parent_, ast.AugAssign):
+            if child is not parent_.value:
+                return False
+            if not _effect_free(parent_.target) or isinstance(parent_.target, ast.Subscript):
+                return False
+            continue
+        if isinstance(parent_, (ast.Expr, ast.Return, ast.keyword, ast.FormattedValue)):
+            continue
+        if not isinstance(parent_, (ast.Call, ast.Attribute, ast.Subscript, ast.BinOp, ast.UnaryOp, ast.Compare, ast.BoolOp, ast.IfExp,
+                                    ast.Tuple, ast.List, ast.Set, ast.JoinedStr, ast.Slice)):
+            return False
+        # children in field order == evaluation order for these node types
+        for ch in ast.iter_child_nodes(parent_):
+            if ch is child:
+                break
+            if isinstance(ch, (ast.expr_context, ast.operator, ast.unaryop, ast.cmpop, ast.boolop)):
+                continue
+            if not _effect_free(ch):
+                return False
+    return True
+
+
+def _always_leaves(stmts: list) -> bool:
+    if not stmts:
+        return False
+    last = stmts[-1]
+    if isinstance(last, (ast.Return, ast.Raise, ast.Continue, ast.Break)):
+        return True
+    if isinstance(last, ast.If) and last.orelse:
+        return _always_leaves(last.body) and _always_leaves(last.orelse)
+    return False
+
+
+def _tail_duplicate_returns(fn: ast.FunctionDef) -> None:
+    """N21: `if c: A else: B` followed by the function's final `return E` becomes `if c: A; return E else: B; return E`
+    (the single exit is copied into every branch that falls through; exactly one copy runs).  Together with N18 this turns the
+    single-exit style `x = ..` in both branches + `return x` into a return per branch."""
+    def rec(stmts: list, depth: int) -> None:
+        if depth > 4 or len(stmts) < 2:
+            return
+        last, prev = stmts[-1], stmts[-2]
+        if not (isinstance(last, ast.Return) and isinstance(prev, ast.If) and prev.orelse):
+            return
+        if last.value is not None and not isinstance(last.value, (ast.Name, ast.Constant, ast.Attribute, ast.Tuple)):
+            return
+        if _always_leaves(prev.body) and _always_leaves(prev.orelse):
+            return
+        for br in (prev.body, prev.orelse):
+            if not _always_leaves(br):
+                br.append(_loc(copy.deepcopy(last), last))
+                rec(br, depth + 1)
+        del stmts[-1]
+    rec(fn.body, 0)
+
+
+def _unnest_else_after_exit(fn: ast.FunctionDef) -> None:
+    """N22: `if c: <always leaves> else: B` -> `if c: <always leaves>` followed by B"""
+    changed = True
+    while changed:
+        changed = False
+        for stmts in _own_stmt_lists(fn):
+            for i, st in enumerate(stmts):
+                if isinstance(st, ast.If) and st.orelse and _always_leaves(st.body) and not (
+                        len(st.orelse) == 1 and isinstance(st.orelse[0], ast.If) and False):
+                    tail = st.orelse
+                    st.orelse = []
+                    stmts[i + 1:i + 1] = tail
+                    changed = True
+                    break
+            if changed:
+                break
+
+
+def _merge_extend_append_branches(fn: ast.FunctionDef) -> None:
+    """N23: `if c: X.extend(a); Y.extend(b) else: X.append(a'); Y.append(b')` (same receivers in the same order, effect-free
+    arguments) -> `t = c; X.extend(a if t else [a']); Y.extend(b if t else [b'])`; c is still evaluated exactly once."""
+    counter = [0]
+
+    def as_extend(st):
+        """-> (receiver name, list-valued argument expr) for X.extend(E) / X.append(E) / X += E on a plain name"""
+        if isinstance(st, ast.Expr) and isinstance(st.value, ast.Call) and isinstance(st.value.func, ast.Attribute) \
+                and isinstance(st.value.func.value, ast.Name) and len(st.value.args) == 1 and not st.value.keywords:
+            c = st.value
+            if c.func.attr == "extend" and _effect_free(c.args[0]):
+                return c.func.value.id, c.args[0]
+            if c.func.attr == "append" and _effect_free(c.args[0]):
+                return c.func.value.id, ast.List(elts=[c.args[0]], ctx=ast.Load())
+        return None
+    for stmts in _own_stmt_lists(fn):
+        i = 0
+        while i < len(stmts):
+            st = stmts[i]
+            if isinstance(st, ast.If) and st.orelse and len(st.body) == len(st.orelse) and 1 <= len(st.body) <= 4:
+                a = [as_extend(x) for x in st.body]
+                b = [as_extend(x) for x in st.orelse]
+                if all(a) and all(b) and [r for r, _ in a] == [r for r, _ in b] and len({r for r, _ in a}) == len(a):
+                    test = st.test
+                    new = []
+                    if not isinstance(test, ast.Name):
+                        counter[0] += 1
+                        tname = f"_disc{counter[0]}"
+                        new.append(_loc(ast.Assign(targets=[ast.Name(id=tname, ctx=ast.Store())], value=test), st))
+                        test = ast.Name(id=tname, ctx=ast.Load())
+                    for (r, x), (_r, y) in zip(a, b):
+                        call = ast.Call(func=ast.Attribute(value=ast.Name(id=r, ctx=ast.Load()), attr="extend", ctx=ast.Load()),
+                                        args=[ast.IfExp(test=copy.deepcopy(test), body=x, orelse=y)], keywords=[])
+                        new.append(_loc(ast.Expr(value=call), st))
+                    stmts[i:i + 1] = new
+                    i += len(new)
+                    continue
+            i += 1
+
+
+def _forward_substitute(fn: ast.FunctionDef) -> None:
+    """N18: a local bound once to any expression and read exactly once, by the very next simple statement, at a point that
+    statement reaches before anything with an effect, is substituted there (`snap = Population(..); hist.append(snap)` ->
+    `hist.append(Population(..))`).  The order of evaluation and the number of evaluations are unchanged."""
+    stores, loads = {}, {}
+    for n in ast.walk(fn):
+        if isinstance(n, ast.Name):
+            d = stores if isinstance(n.ctx, (ast.Store, ast.Del)) else loads
+            d[n.id] = d.get(n.id, 0) + 1
+    params = {a.arg for a in fn.args.args + fn.args.kwonlyargs + fn.args.posonlyargs}
+    if fn.args.vararg:
+        params.add(fn.args.vararg.arg)
+    if fn.args.kwarg:
+        params.add(fn.args.kwarg.arg)
+    changed = True
+    rounds = 0
+    while changed and rounds < 20:
+        changed = False
+        rounds += 1
+        for stmts in _own_stmt_lists(fn):
+            i = 0
+            while i + 1 < len(stmts):
+                st, nxt = stmts[i], stmts[i + 1]
+                tgt = val = None
+                if isinstance(st, ast.Assign) and len(st.targets) == 1 and isinstance(st.targets[0], ast.Name):
+                    tgt, val = st.targets[0].id, st.value
+                elif isinstance(st, ast.AnnAssign) and isinstance(st.target, ast.Name) and st.value is not None:
+                    tgt, val = st.target.id, st.value
+                single = stores.get(tgt, 0) == 1 and loads.get(tgt, 0) == 1
+                # `x = E; return x`: nothing can read x afterwards, whatever other bindings of x exist elsewhere
+                into_return = isinstance(nxt, ast.Return) and tgt is not None and not any(
+                    isinstance(c_, (ast.Lambda, ast.FunctionDef)) and tgt in _names(c_) for c_ in ast.walk(fn) if c_ is not fn)
+                if tgt is None or tgt in params or not (single or into_return) or \
+                        isinstance(val, (ast.Lambda, ast.Yield, ast.YieldFrom, ast.Await, ast.NamedExpr, ast.Starred)) or \
+                        not isinstance(nxt, (ast.Expr, ast.Assign, ast.AugAssign, ast.AnnAssign, ast.Return)):
+                    i += 1
+                    continue
+                uses = [x for x in ast.walk(nxt) if isinstance(x, ast.Name) and x.id == tgt and isinstance(x.ctx, ast.Load)]
+                if len(uses) != 1 or not _eval_prefix_ok(nxt, uses[0]):
+                    i += 1
+                    continue
+                use = uses[0]
+
+                class S(ast.NodeTransformer):
+                    def visit_Name(self, nn):
+                        if nn is use:
+                            return _loc(copy.deepcopy(val), nn)
+                        return nn
+                stmts[i + 1] = S().visit(nxt)
+                del stmts[i]
+                loads[tgt] = 0
+                changed = True
+    ast.fix_missing_locations(fn)
 
 
 def _own_stmt_lists(fn):
@@ -977,9 +1239,20 @@ def _splice_helpers(t: ast.Module) -> None:
             break
 
 
+def _drop_local_annotations(t: ast.Module) -> None:
+    """N20: inside function bodies `x: T = v` / `self.a: T = v` is `x = v` / `self.a = v` (class-level annotated assignments
+    are model fields and are left alone)."""
+    for fn in [n for n in ast.walk(t) if isinstance(n, (ast.FunctionDef, ast.AsyncFunctionDef))]:
+        for stmts in _own_stmt_lists(fn):
+            for i, st in enumerate(stmts):
+                if isinstance(st, ast.AnnAssign) and st.value is not None and isinstance(st.target, (ast.Name, ast.Attribute)):
+                    stmts[i] = _loc(ast.Assign(targets=[st.target], value=st.value), st)
+
+
 def normalize_module(tree: ast.Module) -> ast.Module:
     """Returns a canonicalised deep copy of the module tree."""
     t = copy.deepcopy(tree)
+    _drop_local_annotations(t)
     t = _Expr().visit(t)
     if isinstance(t, ast.Module):
         _inline_private_helpers(t)
@@ -995,6 +1268,13 @@ def normalize_module(tree: ast.Module) -> ast.Module:
     for n in ast.walk(t):
         if isinstance(n, ast.FunctionDef):
             _copy_propagate(n)
+    if not os.environ.get("PVLINT_NO_FWD"):
+        for n in ast.walk(t):
+            if isinstance(n, ast.FunctionDef):
+                _tail_duplicate_returns(n)
+                _unnest_else_after_exit(n)
+                _merge_extend_append_branches(n)
+                _forward_substitute(n)
     t = _Stmt().visit(t)       # forms exposed by propagation (default-then-override etc.)
     t = _Expr().visit(t)       # map idioms exposed by inlining
     ast.fix_missing_locations(t)
